@@ -254,8 +254,12 @@ def _chunk_task(prop_name, tier, master, indices):
     return out
 
 
-def run_digest(r):
-    """Digest of everything a run reports (verdict, counters incl. traced steps / switches / faults, non-triviality keys)."""
+def run_digest(r, prop=None):
+    """Digest of everything a run reports (verdict, counters incl. traced steps / switches / faults, non-triviality keys).
+    A property module may narrow this with det_view(result) where a component outside the simulator's control
+    (Hypothesis' wall-clock-bounded shrinker) decides how much work a *violating* run does."""
+    if prop is not None and hasattr(prop, 'det_view'):
+        return digest(prop.det_view(r))
     return digest({'violations': r['violations'], 'stats': r['stats'], 'keys': r['keys'], 'harness': bool(r.get('harness'))})
 
 
@@ -267,8 +271,9 @@ def rerun(prop_name, tier, master, indices, workers):
     out = {}
     with ProcessPoolExecutor(max_workers=max(1, min(workers, len(indices))), mp_context=mp.get_context('fork')) as ex:
         for res in ex.map(_chunk_task, [prop_name] * len(indices), [tier] * len(indices), [master] * len(indices), [[i] for i in indices]):
+            from . import props
             for r in res:
-                out[r['index']] = run_digest(r)
+                out[r['index']] = run_digest(r, props.load(prop_name))
     return out
 
 
